@@ -2,7 +2,7 @@
 # re-base every seeded patch onto /repo HEAD and re-confirm it (tests pass, demo fails)
 out=/tmp/rebase_results.txt; : > $out
 head=$(git -C /repo rev-parse HEAD)
-for d in /verif/seeded/C*; do
+for d in /verif/seeded/C* /verif/seeded/R2-*; do
   id=$(basename $d); wt=/tmp/mut/rb-$id; rm -rf $wt; git -C /repo worktree prune
   [ -f $d/patch.orig.diff ] || cp $d/patch.diff $d/patch.orig.diff
   git -C /repo worktree add --detach $wt $head >/dev/null 2>&1
